@@ -644,6 +644,10 @@ def judge_simulation(ctx, res, cfg, mode, sim, record=True):
                       r["Date Began"][:10], float(r['"True" Rate (g/s)'])) for r in recs)
         if record:
             ctx.evaluations += 1
+        if len(set(got)) != len(got) and len(set(want)) == len(want):
+            dup = sorted({x for x in got if got.count(x) > 1})[:3]
+            viol("C01:emission-recorded-twice", "an emission of the scenario appears more than once in a program's records",
+                 {"cfg": cfg, "mode": mode, "sim": sim, "program": prog, "twice": dup})
         if got != want:
             miss = [x for x in want if x not in got][:3]
             extra = [x for x in got if x not in want][:3]
@@ -851,6 +855,10 @@ def whole_jobs(ctx):
     cfg["methods"]["OGI"].update(reporting_delay=1, crew_count=2, survey_time=30, surveys_per_year=12,
                                  months=list(range(1, 13)), spatial=1.0, mdl=0.125, consider_daylight=False)
     cfg["programs"] = [p for p in cfg["programs"] if p["name"] in ("P_none", "P_OGI", "P_air")]
+    # ... and site types that list an equipment group twice (`eq1;eq1;`): two same-named groups below one site share
+    # one queue of generated emissions (the scenario dict is keyed by names); every emission of the scenario must
+    # appear in exactly ONE component of every program's records, and the records must number the started emissions
+    cfg["site_types"] = {"tA": ["eq1", "eq1"], "tB": ["eq2", "eq3", "eq2"]}
     cfg["intermittent_focus"] = True
     jobs.append((cfg, True, 1, "debug"))
     if not ctx.quick:
@@ -944,6 +952,8 @@ def whole_stage(ctx):
             ctx.count("wholerun_runs_n_sims_%d" % cfg["n_sims"])
             if cfg.get("site_extra_cols"):
                 ctx.count("wholerun_runs_with_site_deployment_columns")
+            if any(len(set(v)) != len(v) for v in (cfg.get("site_types") or {}).values()) and cfg["granular"]:
+                ctx.count("wholerun_runs_with_duplicate_equipment_groups")
             if cfg.get("intermittent_focus"):
                 ctx.count("wholerun_runs_intermittent_focus")
                 for sim in sims:
